@@ -85,10 +85,10 @@ def obligations(tier, seed):
         MirOb("c02_truncated_nanoseconds", "truncated_nanoseconds", [In("d", "&Duration")], post_trunc,
               "truncated_nanoseconds: the count within +/-2 centuries, the i64 bound of the same sign when it does not fit, never a third number",
               "truncated_nanoseconds", ret_shape="i64", min_paths=3),
-        MirOb("c02_unit_mul_i64", "mul@src/timeunits.rs:242", [In("u", "Unit"), In("q", "i64")], post_unit_mul,
+        MirOb("c02_unit_mul_i64", "mul@src/timeunits.rs#(timeunits::Unit;i64)", [In("u", "Unit"), In("q", "i64")], post_unit_mul,
               "Unit * q == clamp(q * ns_per_unit) for the nine units and every i64", "unit_mul_i64",
               functions=["impl Mul<i64> for Unit", "Duration::from_truncated_nanoseconds", "Duration::from_total_nanoseconds"], min_paths=9),
-        MirOb("c02_i64_mul_unit", "mul@src/duration/ops.rs:28#(i64;timeunits::Unit)", [In("q", "i64"), In("u", "Unit")], post_unit_mul,
+        MirOb("c02_i64_mul_unit", "mul@src/duration/ops.rs#(i64;timeunits::Unit)", [In("q", "i64"), In("u", "Unit")], post_unit_mul,
               "q * Unit == clamp(q * ns_per_unit) (reflexive form)", "i64_mul_unit", min_paths=9),
     ]
     return obs
